@@ -180,6 +180,23 @@ func c18(c *core.Ctx) {
 		if e := ssax.ResultValue(rm.Instr, 2); e != nil {
 			pins[e] = ssax.AVNil
 		}
+		// the type test comes before anything is decided from the payload: a message that is skipped because
+		// of its content (e.g. an empty one) would never have its type checked
+		if payload := ssax.ResultValue(rm.Instr, 1); payload != nil {
+			for bo := range pins {
+				in, ok := bo.(ssa.Instruction)
+				if !ok || bo == ssax.ResultValue(rm.Instr, 2) {
+					continue
+				}
+				dep := false
+				for _, g := range ssax.Guards(in) {
+					if ssax.AnyIn(ssax.Backward(g.Cond), func(v ssa.Value) bool { return v == payload }) {
+						dep = true
+					}
+				}
+				c.Check(!dep, "C18.R2", "wsConn.Read|type-test-first", ipos(c, in), "the message type is tested before the payload is looked at", "the message type is only tested for messages that passed a test on their payload (e.g. non-empty): an empty text message is skipped instead of ending the connection")
+			}
+		}
 		if mt == nil || len(pins) <= 1 && ssax.ResultValue(rm.Instr, 2) != nil && len(pins) == 1 {
 			c.Violation("C18.R2", "wsConn.Read|type-test", ipos(c, rm.Instr), "the message type returned by ReadMessage is not compared with BinaryMessage: text frames are accepted")
 		} else {
